@@ -114,6 +114,19 @@ def events(ctx):
             if ep != "pdu":
                 par = {"want": "any"}
         c = rng.randrange(3)
+        if k == "pdu" and rng.random() < 0.4:
+            # consistent shortening: declared data field length and buffer end moved together, CRC recomputed
+            hl = 4 + 2 * len(p["cfg"]["src"]) + len(p["cfg"]["seq"])
+            crc = p["cfg"]["crc"]
+            if len(raw) - hl > 2 * crc:
+                n = rng.randrange(2 * crc, len(raw) - hl)
+                b = [raw[0], n >> 8, n & 255] + raw[3:hl] + raw[hl:hl + n - 2 * crc]
+                if crc:
+                    from .c02 import crc16
+                    x = crc16(b)
+                    b += [x >> 8, x & 255]
+                yield record("rob.decode", {"ep": ep, "octets": b + [0] * rng.choice([0, 0, 5]), "full": [], "par": par})
+                continue
         if c == 0:
             yield record("rob.decode", {"ep": ep, "octets": raw[:rng.randrange(len(raw))] if raw else [], "full": raw, "par": par})
         else:
